@@ -106,6 +106,61 @@ class Ctx:
             return self.ob(rule, construct, st, VIOLATED, node, reason + ' -- expected ' + expected_src)
         return self.ob(rule, construct, st, UNDECIDED, node, 'built from other operands than ' + expected_src + ': ' + reason)
 
+    def expect(self, rule, construct, observed, expected_src, node=None, reason='', label=None, mutations=None):
+        """Compare an expression with the expected one modulo equivalences (sa/treecmp.py): equal -> met; exactly one
+        semantic mutation away (swapped operands/arguments/subscripts, changed constant, flipped sign or comparison,
+        +-1 offset, dropped keyword) -> violated, naming the mutation; anything else -> undecided."""
+        from . import treecmp
+        st = label or (src(observed) if not isinstance(observed, str) else observed)
+        try:
+            verdict, what = treecmp.compare(observed, expected_src, mutations)
+        except RecursionError:
+            verdict, what = 'different', None
+        if verdict == 'equal':
+            return self.ob(rule, construct, st, MET, node, reason)
+        if verdict == 'mutation':
+            got = src(observed) if not isinstance(observed, str) else observed
+            return self.ob(rule, construct, st, VIOLATED, node, '%s -- %s: `%s` where `%s` is required' % (reason, what, got[:120], expected_src[:120]))
+        return self.ob(rule, construct, st, UNDECIDED, node, 'not in a recognised form (expected `%s`): %s' % (expected_src[:100], reason))
+
+    def expect_assign(self, rule, fi, target, expected_src, reason='', label=None, mutations=None, which=None):
+        """The assignment(s) to ``target`` (source text of the target) in function ``fi`` must have the expected value."""
+        from .program import own_nodes
+        cands = [s for s in own_nodes(fi.node) if isinstance(s, (ast.Assign, ast.AugAssign, ast.AnnAssign))
+                 and any(src(t).replace(' ', '') == target.replace(' ', '') for t in (s.targets if isinstance(s, ast.Assign) else [s.target]))]
+        if which is not None:
+            cands = [c for c in cands if which(c)]
+        lab = label or ('%s = %s' % (target, expected_src))
+        if not cands:
+            return self.ob(rule, fi.qual, lab, UNDECIDED, fi.node, 'no assignment to %s found: %s' % (target, reason))
+        from . import treecmp
+        for c in cands:
+            if treecmp.compare(c.value, expected_src)[0] == 'equal':
+                return self.ob(rule, fi.qual, lab, MET, c, reason)
+        return self.expect(rule, fi.qual, cands[0].value, expected_src, cands[0], reason, label=lab, mutations=mutations)
+
+    def expect_call(self, rule, fi, callee, expected_src, reason='', label=None, mutations=None, scope=None):
+        """A call of ``callee`` (dotted name as written) inside ``fi`` must equal the expected call."""
+        from .program import call_name
+        cands = [c for c in ast.walk(scope if scope is not None else fi.node) if isinstance(c, ast.Call) and call_name(c) == callee]
+        lab = label or expected_src
+        if not cands:
+            return self.ob(rule, fi.qual, lab, UNDECIDED, fi.node, 'no call of %s found: %s' % (callee, reason))
+        from . import treecmp
+        for c in cands:
+            if treecmp.compare(c, expected_src)[0] == 'equal':
+                return self.ob(rule, fi.qual, lab, MET, c, reason)
+        return self.expect(rule, fi.qual, cands[0], expected_src, cands[0], reason, label=lab, mutations=mutations)
+
+    def expect_return(self, rule, fi, expected_src, reason='', label=None, mutations=None, index=-1):
+        from . import guards
+        rets = [r for r in guards.returns_of(fi.node) if r.value is not None]
+        lab = label or ('return ' + expected_src)
+        if not rets:
+            return self.ob(rule, fi.qual, lab, UNDECIDED, fi.node, 'no return value: ' + reason)
+        r = rets[index]
+        return self.expect(rule, fi.qual, r.value, expected_src, r, reason, label=lab, mutations=mutations)
+
     def note(self, text):
         self.notes.append(text)
 
@@ -164,6 +219,8 @@ def run_property(prop, tier='quick', repo=None, write=True, out=sys.stdout, prog
             prog = Program(repo)
         ctx = Ctx(prop, prog, tier)
         mod.run(ctx)
+        from . import refdiff
+        refdiff.run(ctx, 'R%s.0' % prop[1:])
         if tier == 'thorough' and hasattr(mod, 'run_thorough'):
             mod.run_thorough(ctx)
     except AnchorMissing as e:
